@@ -79,6 +79,11 @@ def gen_inner(rng, tag, cfg):
         for i in range(1, n):
             stages.append(pup("%si%d" % (tag, i), {"t": "filter", "code": rng.choice([0, 2]), "rchunk": 65536,
                                                   "on_epipe": "exit"}))
+        if rng.chance(35):
+            # the last stage prints something of its own and does not depend on what comes down the pipe
+            own = gen_text(rng, cfg, rng.choice([3, 12, 60])) or "own"
+            stages[-1] = pup("%si%d" % (tag, n - 1), {"t": "talker", "writes": [{"fd": 1, "hex": (own + "\n").encode().hex()}],
+                                                      "code": 0, "on_epipe": "exit"})
         return stages, "stream"
     if k < 83:
         return [{"kind": "builtin", "text": "alias"}], "opaque"
@@ -244,8 +249,15 @@ class C11Runner(LineRunner):
         sub = line["subs"][k]
         if sub["kind"] == "opaque":
             return None
-        if G.pipe_failed or G.forks_failed:
+        if G.pipe_failed:
             return None
+        if G.forks_failed:
+            # a stage that could not be started: if it was not the last one, the last stage still ran and
+            # what it printed is the replacement
+            last = G.stages[-1]
+            if getattr(last, "fork_failed", False) or last.pid is None:
+                return None
+            self.sim.probe("inner_pipeline_with_an_unstartable_earlier_stage")
         if sub["kind"] == "empty":
             return b""
         data = bytes(G.cap_out.fifo)
@@ -443,6 +455,7 @@ def make_case(seed, index):
     sc["adversarial_picks"] = rng.choice([0, 5, 20, 60, 150])
     if cfg.get("stall"):
         sc["stall_shell"] = True
+        sc["stall_until_idle"] = rng.chance(60)
         sc["adversarial_picks"] = rng.choice([20, 60, 150])
     return sc, rng
 
@@ -520,6 +533,22 @@ def explicit_cases():
                                          "text": "V=val1"}, l,
                                         {"stages": [pup("prb0", {"t": "ignorer", "code": 0}, args=["$V", "$?"])], "probe": True}],
               "externals": [], "faults": {}, "files": {}, "config": "stderr_volume_explicit", "adversarial_picks": 30}
+        cases.append(plines.LineRunner.rebuild(sc))
+    for first_fd, burst in ((1, 4096), (2, 4096), (1, 8192), (1, 65536)):
+        other = 2 if first_fd == 1 else 1
+        ws = [{"fd": first_fd, "n": burst, "seed": 7300 + burst, "printable": True},
+              {"fd": other, "n": 100000, "seed": 7400 + burst, "printable": True},
+              {"fd": first_fd, "hex": b"END\n".hex()}]
+        inner = [pup("e0i", {"t": "talker", "writes": ws, "code": 0, "chunk": 65536})]
+        subs = [{"inner": inner, "kind": "text", "pre": "p", "post": "q", "text": "$(pup e0i)"}]
+        outer = [pup("eo", {"t": "io", "read": "all", "writes": [], "code": 0, "rchunk": 65536},
+                     redirs=[{"k": "hs", "word": "p$(pup e0i)q", "size": 0, "from_subst": True}])]
+        l = {"probe": False, "subs": subs, "form": "hs", "same_word": True, "dones": 1, "stages": outer,
+             "groups": [{"stages": inner, "capture": True}, {"stages": outer, "capture": False}]}
+        sc = {"prop": "C11", "lines": [{"stages": [{"kind": "assign", "text": "V=val1"}], "probe": False, "raw": True,
+                                         "text": "V=val1"}, l,
+                                        {"stages": [pup("prb0", {"t": "ignorer", "code": 0}, args=["$V", "$?"])], "probe": True}],
+              "externals": [], "faults": {}, "files": {}, "config": "chunk_multiple_explicit", "adversarial_picks": 30}
         cases.append(plines.LineRunner.rebuild(sc))
     for l in (line("argv", [("one", "a", "b"), ("two", "", "c")]),
               line("argv", [("x{1..3}y", "p", "q")]),
